@@ -45,6 +45,9 @@ CONSTANTS
   Regen,                \* TRUE: while no injector exists the environment may replace a function's code (JIT output
                         \* regenerated, a plugin unloaded and loaded again at the same address); what a lifetime restores is
                         \* what IT found, not what an earlier lifetime found
+  VerifierStep,         \* "first" (the counter is reset and the verifier stored before anything else) | "last" (deviation:
+                        \* after the fake has gone live -- a call that arrives in between is counted against the old value
+                        \* or wiped out by the reset)
   RestoreMayFail,       \* TRUE: the page of a patched function may refuse to become writable again when the patch is to be
                         \* undone (environment); the guard's destructor panics, nothing is restored or unmapped by it
   LockByHand,           \* deviation: the lock is released by a statement at the end of the destructor instead of by the
@@ -192,7 +195,8 @@ InInstall(t) == th[t].pc = "install"
 
 \* will_execute stores the verifier before anything else is looked at (n = -1: no count)
 PushVerifier(t) ==
-  /\ InInstall(t) /\ cur[t].gate # "abandon" /\ cur[t].n >= 0 /\ ~Done(t, "verifier") /\ ~Done(t, "gate") /\ LinearOk(t, "verifier")
+  /\ InInstall(t) /\ cur[t].gate # "abandon" /\ cur[t].n >= 0 /\ ~Done(t, "verifier")
+  /\ IF VerifierStep = "first" THEN ~Done(t, "gate") /\ LinearOk(t, "verifier") ELSE Done(t, "fentry")
   /\ LET s == cur[t].site IN
        /\ cur' = Mark(t, "verifier")
        /\ inj' = [inj EXCEPT ![t].verifiers = Append(@, [site |-> s, n |-> cur[t].n])]
@@ -202,7 +206,7 @@ PushVerifier(t) ==
 \* signature / bool / null checks: refuse before anything is modified
 GatePass(t, size) ==
   /\ InInstall(t) /\ ~Done(t, "gate") /\ cur[t].gate = "ok" /\ LinearOk(t, "gate")
-  /\ (cur[t].n >= 0 => Done(t, "verifier"))
+  /\ (cur[t].n >= 0 /\ VerifierStep = "first" => Done(t, "verifier"))
   /\ size \in PatchSizes
   /\ cur' = [cur EXCEPT ![t].done = @ \cup {"gate"}, ![t].size = size]
   /\ UNCHANGED <<lock, poisoned, th, inj, dropst, code, orig, tramp, rw, dirty, ctr, aborted, fault, inflight>>
@@ -324,6 +328,7 @@ PushGuard(t) ==
 
 InstallEnd(t) ==
   /\ InInstall(t) /\ Done(t, "push") /\ Done(t, "fentry") /\ Done(t, "ftramp")
+  /\ (cur[t].n >= 0 => Done(t, "verifier"))
   /\ th' = [th EXCEPT ![t].pc = "user"]
   /\ cur' = [cur EXCEPT ![t] = NoCtx]
   /\ UNCHANGED <<lock, poisoned, inj, dropst, code, orig, tramp, rw, dirty, ctr, aborted, fault, inflight>>
